@@ -34,7 +34,7 @@ type Cell struct {
 	Dir        string `json:"dir"`
 	Proto      string `json:"proto"` // tls | dtls
 	ServerCert string `json:"server_cert,omitempty"`
-	ServerName string `json:"server_name,omitempty"` // matching | unset | mismatching
+	ServerName string `json:"server_name,omitempty"` // matching | unset | mismatching | ip_matching | ip_mismatching
 	ClientCert string `json:"client_cert,omitempty"`
 	ClientCA   bool   `json:"client_ca,omitempty"`
 	MaxVersion string `json:"max_version,omitempty"` // 1.1 | 1.2 | 1.3
@@ -82,7 +82,7 @@ func TestMain(m *testing.M) {
 	if rp := ev.LoadReplay(); rp != nil {
 		ev.RunReplay(rp, func(c Cell) *ev.Failure { f, _ := runCell(c); return f })
 	}
-	rec = ev.New("C18", "the configuration matrix, enumerated completely in both tiers: library exporter against a harness-controlled server, {server certificate: trusted / other CA / self-signed / expired / not-yet-valid / wrong SAN / no SAN} x {ServerName matching / unset / mismatching} x {tls with server max version 1.1 / 1.2 / 1.3, dtls}; harness-controlled TLS client against the library collector, {client certificate: none / trusted / other CA / expired} x {client CA set / unset} x {client max version 1.1 / 1.2 / 1.3}; plaintext peers against encrypted endpoints and encrypted exporters against plaintext collectors (tcp and udp); an independent predicate written from the statement decides each cell; non-trivial = every cell (each is a distinct session with a decided expectation)",
+	rec = ev.New("C18", "the configuration matrix, enumerated completely in both tiers: library exporter against a harness-controlled server, {server certificate: trusted / other CA / self-signed / expired / not-yet-valid / wrong SAN / no SAN} x {ServerName matching DNS name / unset / mismatching DNS name / matching IP literal / mismatching IP literal} x {tls with server max version 1.1 / 1.2 / 1.3, dtls}; harness-controlled TLS client against the library collector, {client certificate: none / trusted / other CA / expired} x {client CA set / unset} x {client max version 1.1 / 1.2 / 1.3}; plaintext peers against encrypted endpoints and encrypted exporters against plaintext collectors (tcp and udp); an independent predicate written from the statement decides each cell; non-trivial = every cell (each is a distinct session with a decided expectation)",
 		"certificates (ECDSA P-256) minted in-process", "Go crypto/tls and pion/dtls as the harness-side peers", "the client-certificate dimensions do not apply to the exporter direction, nor to DTLS (the library documents that DTLS client authentication is unsupported; pion speaks DTLS 1.2 only)")
 	code := m.Run()
 	rec.Write()
@@ -90,7 +90,7 @@ func TestMain(m *testing.M) {
 }
 
 func sanOK(cert, sn string) bool {
-	want := map[string]string{"matching": "localhost", "unset": "127.0.0.1", "mismatching": "other.example"}[sn]
+	want := map[string]string{"matching": "localhost", "unset": "127.0.0.1", "mismatching": "other.example", "ip_matching": "127.0.0.1", "ip_mismatching": "192.0.2.1"}[sn]
 	for _, s := range serverSANs[cert] {
 		if s == want {
 			return true
@@ -100,7 +100,7 @@ func sanOK(cert, sn string) bool {
 }
 
 func snValue(sn string) string {
-	return map[string]string{"matching": "localhost", "unset": "", "mismatching": "other.example"}[sn]
+	return map[string]string{"matching": "localhost", "unset": "", "mismatching": "other.example", "ip_matching": "127.0.0.1", "ip_mismatching": "192.0.2.1"}[sn]
 }
 
 var tplFields = []ref.Field{{ID: 8, Len: 4, Type: ref.TIPv4, Name: "sourceIPv4Address"}, {ID: 4, Len: 1, Type: ref.TU8, Name: "protocolIdentifier"}}
@@ -247,7 +247,7 @@ func exporterVsDTLSServer(c Cell) (*ev.Failure, bool) {
 	}
 	defer ep.CloseConnToCollector()
 	if !want {
-		return ev.Failf("DTLS exporter completed a session with a collector it cannot verify (cell %+v): certificate %s, expected name/address %q", c, c.ServerCert, map[string]string{"matching": "localhost", "unset": "127.0.0.1 (the collector address)", "mismatching": "other.example"}[c.ServerName]), true
+		return ev.Failf("DTLS exporter completed a session with a collector it cannot verify (cell %+v): certificate %s, expected name/address %q", c, c.ServerCert, map[string]string{"matching": "localhost", "unset": "127.0.0.1 (the collector address)", "mismatching": "other.example", "ip_matching": "127.0.0.1", "ip_mismatching": "192.0.2.1"}[c.ServerName]), true
 	}
 	if err := sendTemplate(ep); err != nil {
 		return ev.Failf("send over the established DTLS session failed: %v", err), true
@@ -466,7 +466,7 @@ func plaintext(c Cell) (*ev.Failure, bool) {
 func cells() []Cell {
 	var out []Cell
 	for _, sc := range []string{"trusted", "other_ca", "self_signed", "expired", "not_yet_valid", "wrong_san", "no_san"} {
-		for _, sn := range []string{"matching", "unset", "mismatching"} {
+		for _, sn := range []string{"matching", "unset", "mismatching", "ip_matching", "ip_mismatching"} {
 			for _, v := range []string{"1.1", "1.2", "1.3"} {
 				out = append(out, Cell{Dir: "exporter", Proto: "tls", ServerCert: sc, ServerName: sn, MaxVersion: v})
 			}
